@@ -214,6 +214,10 @@ class ActionKinds:
         if isinstance(e, ast.Subscript):
             base = ev(e.value)
             ev(e.slice) if not isinstance(e.slice, ast.Slice) else None
+            if isinstance(e.slice, ast.Slice) and base.known and base.kinds <= {'list', 'tuple', 'str'}:
+                # a slice has the kind of its base; it may be empty unless it is the full copy `x[:]`
+                full = e.slice.lower is None and e.slice.upper is None and e.slice.step is None
+                return V(base.kinds, base.elem, base.keys if full else None, nonempty=base.nonempty and full)
             k = const_str(e.slice)
             if 'dict' in base.kinds and k is not None:
                 proven = (base.keys is not None and k in base.keys) or k in st.get('#keys', {}).get(norm(e.value), ())
@@ -471,17 +475,15 @@ class ActionKinds:
             return V(['list'], vk(UNK))
         if d in ('min', 'max', 'sum', 'abs'):
             return vk('int', 'float')
-        if d in ('tokens_to_string',):
-            return V(['str'])
         if d in ('Identifier.from_path_str',):
             a0 = args[0] if args else vk(UNK)
             if not (a0.kinds <= {'str'} and a0.known) and sink:
                 sink('R6', e, f'`{norm(e)}`: the path must be a string, got kind {a0!r}')
             return vk('Identifier')
-        if d in self.module_funcs and d not in ('tokens_to_string',):
+        if d in self.module_funcs:
             file, fn = self.module_funcs[d]
             val = self.call_function(fn, file, args, kw, e, sink)
-            known_ret = {'unquote_string_token': vk('str'), 'variable_token_to_name': vk('str'), 'param_to_identifier': vk('Identifier'),
+            known_ret = {'tokens_to_string': vk('str'), 'unquote_string_token': vk('str'), 'variable_token_to_name': vk('str'), 'param_to_identifier': vk('Identifier'),
                          'ensure_select_keyword_order': vk('None'), 'path_str_to_parts': V(['list'], vk('str'))}
             return known_ret.get(d, val)
         last = d.split('.')[-1] if d else None
